@@ -54,7 +54,12 @@ func FlushInterval(interval time.Duration) LoggerOption {
 }
 
 func NewLogger(w io.Writer, label string, opts ...LoggerOption) (Logger, error) {
-	zapl, err := zap.NewProduction()
+	// the production preset samples log entries with the same message (the first
+	// 100 per second, then every 100th); here the message is the scan label, so all
+	// but about 100 error records of a scan would be dropped: every error is logged
+	cfg := zap.NewProductionConfig()
+	cfg.Sampling = nil
+	zapl, err := cfg.Build()
 	if err != nil {
 		return nil, err
 	}
